@@ -199,7 +199,10 @@ func clip(s string) string {
 	return s
 }
 
-// apifmtRun performs the five real calls of one case and returns its events in order.
+// apifmtRun performs the real calls of one case (parse, format, parse and format of the
+// formatted text, parse of the result of the second formatting run) and returns its events
+// in order. A step is only left out when the text it would work on does not exist (the
+// formatting call before it did not return one); ApiDocTrace knows these two exits.
 func apifmtRun(c *apifmtCase) []verifEv {
 	reset := verifEv{"e": "reset", "id": c.ID, "valid": c.Valid, "src": c.Src,
 		"doc": c.Doc, "seps": c.Seps, "mut": c.Mut}
@@ -215,6 +218,11 @@ func apifmtRun(c *apifmtCase) []verifEv {
 	evs = append(evs, verifEv{"e": "reparse", "st": st2, "m": m2, "detail": clip(d2)})
 	st3, f2, d3 := apifmtFormat(f1)
 	evs = append(evs, verifEv{"e": "reformat", "st": st3, "out": f2, "detail": clip(d3)})
+	if st3 != "ok" {
+		return evs
+	}
+	st4, m4, d4 := apifmtParse(f2)
+	evs = append(evs, verifEv{"e": "reparse2", "st": st4, "m": m4, "detail": clip(d4)})
 	return evs
 }
 
